@@ -2,6 +2,7 @@
 Rows: `no_op` rows, `go_to` rows, merging rows, rows creating a node — `_parse_row`.
 -/
 import Rpft.Lemmas.CompileInsertScope2
+import Rpft.Lemmas.CompileInsertDex
 set_option linter.unusedSimpArgs false
 set_option linter.unusedVariables false
 namespace Rpft.Compile
@@ -285,7 +286,7 @@ theorem mergeRow_rel (ok : P.Ok) {s₁ s₂ : St} (h : Sim P X s₁ s₂) (r : R
         refine rwp_mono (getNode_rel a0 hdx) ?_
         intro n t₁ n' t₂ ⟨hn', hn, e1, e2⟩
         subst n'; subst t₁; subst t₂
-        have a1 := a0.setNode ok hdx hn (n' := { n with actions := n.actions ++ [(au, act)] })
+        have a1 := a0.setNode ok hdx hn (n' := { n with actions := n.actions ++ [(au, act)] }) (.inl rfl)
         rw [rwp_bind, rwp_iff_wp, wp_setNode]
         rw [wp_setNode]
         have e3 : (rnNode P.ρ { n with actions := n.actions ++ [(au, act)] }) =
@@ -364,9 +365,9 @@ theorem newRow_rel (ok : P.Ok) {s₁ s₂ : St} (h : Sim P X s₁ s₂) (r : Row
   refine rwp_bind_id (rowAction_rel r) h.1.idSync ?_
   intro act k0
   have a0 := bump_asim h.1 k0
-  refine rwp_bind_id (rowNode_rel ok.hρ r act hgiv) a0.idSync ?_
-  intro n k1
-  have a1 := (bump_asim a0 k1).addNode n
+  refine rwp_bind_id_u (rowNode_dex r act _) (rowNode_rel ok.hρ r act hgiv) a0.idSync ?_
+  intro n k1 hdexn
+  have a1 := (bump_asim a0 k1).addNode n (.inl hdexn)
   dsimp only at a1 ⊢
   have hs1 : Sim P X _ _ := ⟨a1, h.2.of_seq ⟨rfl, rfl, rfl⟩ ⟨rfl, rfl, rfl⟩⟩
   have hb1 : BlkEq s₁ { s₁ with next := s₁.next + k0 + k1, nodes := s₁.nodes.push n } :=
